@@ -280,6 +280,7 @@ func runCase(c fsCase, w *rig.Writer, refReplies [][]byte, noEvict bool) (coq st
 			return cn
 		}
 		cn := stack.Dial(b, stack.Config{Orca: orcaOf[port], Locked: c.Locked, MultiRd: !chunkedL1 && !c.SingleRd, L1: l1kind, Proto: c.Proto, L1Sock: sock1, L2Sock: sock2})
+		cn.Strict = true
 		conns[port] = cn
 		return cn
 	}
@@ -315,6 +316,10 @@ func runCase(c fsCase, w *rig.Writer, refReplies [][]byte, noEvict bool) (coq st
 		reply, closed, err := cn.Exchange(bytesReq, 10*time.Second)
 		if chunkedL1 && time.Now().Unix() != st.Now {
 			return "", false, nil, nil // the second changed during the command: the caller retries the case
+		}
+		if cn.Unflushed > 0 {
+			return "", false, &rig.GoFailure{Kind: "counterexample", What: "reply bytes were still unflushed in the server's write buffer when it went back to waiting for the next request",
+				Input: truncCase(c, i+1), Detail: fmt.Sprintf("step %d: %d bytes unflushed", i, cn.Unflushed)}, nil
 		}
 		if err != nil {
 			return "", false, &rig.GoFailure{Kind: "counterexample", What: "no complete reply within 10 s (hang)",
